@@ -1,38 +1,109 @@
-(* Model of the service code generator (C11):
-     tonic-build/src/lib.rs      format_service_name / format_method_path, traits Service / Method
-     tonic-build/src/client.rs   generate_methods: one `pub async fn` per method
-     tonic-build/src/server.rs   generate_methods: one match arm per method; generate_named
-     tonic-build/src/code_gen.rs CodeGenBuilder (options), manual.rs / prost.rs (descriptors)
-   Only what the property speaks about is kept: the strings, the streaming shape and the message
-   types each side is generated with.  Strings are byte lists.  No proofs here. *)
+(* Model of the service code generator (C11), function by function:
+     tonic-build/src/lib.rs       traits Service / Method, format_service_name, format_method_path,
+                                  naive_snake_case
+     tonic-build/src/client.rs    generate_internal, generate_methods, generate_unary /
+                                  generate_server_streaming / generate_client_streaming / generate_streaming
+     tonic-build/src/server.rs    generate_internal, generate_trait_methods (the 8-arm match),
+                                  generate_named, generate_methods and its four arm generators
+     tonic-build/src/code_gen.rs  CodeGenBuilder (setters, generate_client, generate_server)
+     tonic-build/src/manual.rs    Service / Method (trait impls), ServiceGenerator::generate
+     tonic-build/src/prost.rs     TonicBuildService / TonicBuildMethod (trait impls, convert_type),
+                                  ServiceGenerator::generate, configure()
+   What is kept of the emitted code is what the property speaks about: every string that reaches
+   the wire (path literal, GrpcMethod pair, match-arm literal, SERVICE_NAME, NamedService::NAME),
+   the streaming shape in each of the places it is written (client signature, client Grpc call,
+   <Kind>Service impl, `fn call` argument, server Grpc call, trait signature), the message types in
+   each of those places, the handler that an arm calls (trait, fn, receiver convention), and the
+   public names derived from Service::name().  Strings are byte lists; a type is its token text
+   without white space.
+   Panics are outcomes: every `format_ident!` (quote::__private::mk_ident -> proc_macro2 fallback
+   validate_ident / validate_ident_raw), every `syn::parse_str::<syn::Path>(..).unwrap()` and the
+   `expect("not a valid tokenstream")` of the two `finalize` functions is [None] here.
+   syn's and unicode-ident's verdicts are inputs (external libraries): whether a string parses as a
+   syn::Path is a field of the descriptor filled in by the harness from syn itself; identifiers are
+   judged on ASCII (XID_Start/XID_Continue restricted to ASCII - names are ASCII in this model).
+   No proofs here. *)
 From Verif Require Import Lib.Bytes Lib.Obs Model.Router.
+From Coq Require Import String.
 Open Scope N_scope.
 
 Definition dot : N := 46.
+Definition underscore : N := 95.
+Definition str (s : string) : list N := bytes_of_string s.
 
-(* tonic_build::Method *)
+Definition starts_with (p l : list N) : bool :=
+  match strip_prefix p l with Some _ => true | None => false end.
+
+(* option as "value or panic" *)
+Definition bind {A B} (x : option A) (f : A -> option B) : option B :=
+  match x with Some a => f a | None => None end.
+Notation "x <- e ;; k" := (bind e (fun x => k)) (at level 61, e at next level, right associativity).
+Fixpoint mapM {A B} (f : A -> option B) (l : list A) : option (list B) :=
+  match l with
+  | [] => Some []
+  | x :: l' => y <- f x ;; ys <- mapM f l' ;; Some (y :: ys)
+  end.
+
+(* ------------------------------------------------------------------------------------------
+   proc_macro2 (fallback) + quote: identifiers *)
+Definition is_ident_start (c : N) : bool := (c =? underscore) || is_upper c || is_lower c.
+Definition is_ident_continue (c : N) : bool := (c =? underscore) || is_upper c || is_lower c || is_digit c.
+Definition ident_ok (s : list N) : bool :=
+  match s with
+  | [] => false
+  | first :: rest => is_ident_start first && forallb is_ident_continue rest
+  end.
+(* fn validate_ident: true = does not panic *)
+Definition validate_ident (s : list N) : bool :=
+  match s with
+  | [] => false                                           (* "Ident is not allowed to be empty" *)
+  | _ => if forallb is_digit s then false                 (* "Ident cannot be a number" *)
+         else ident_ok s                                  (* "{:?} is not a valid Ident" *)
+  end.
+(* fn validate_ident_raw *)
+Definition not_raw_able (s : list N) : bool :=
+  bytes_eqb s (str "_") || bytes_eqb s (str "super") || bytes_eqb s (str "self") ||
+  bytes_eqb s (str "Self") || bytes_eqb s (str "crate").
+Definition validate_ident_raw (s : list N) : bool := validate_ident s && negb (not_raw_able s).
+(* quote: mk_ident / ident_maybe_raw; the identifier prints as the text it was made from *)
+Definition mk_ident (id : list N) : option (list N) :=
+  match strip_prefix (str "r#") id with
+  | Some rest => if validate_ident_raw rest then Some id else None
+  | None => if validate_ident id then Some id else None
+  end.
+
+(* syn: the words `Ident::parse` refuses (syn/src/ident.rs); the generated text is parsed again by
+   `finalize` (manual.rs / prost.rs), where a defined name that is one of these does not parse *)
+Definition syn_keywords : list (list N) := map str
+  [ "_"; "abstract"; "as"; "async"; "await"; "become"; "box"; "break"; "const"; "continue";
+    "crate"; "do"; "dyn"; "else"; "enum"; "extern"; "false"; "final"; "fn"; "for"; "if"; "impl";
+    "in"; "let"; "loop"; "macro"; "match"; "mod"; "move"; "mut"; "override"; "priv"; "pub"; "ref";
+    "return"; "Self"; "self"; "static"; "struct"; "super"; "trait"; "true"; "try"; "type";
+    "typeof"; "unsafe"; "unsized"; "use"; "virtual"; "where"; "while"; "yield" ]%string.
+Definition is_syn_keyword (s : list N) : bool := existsb (bytes_eqb s) syn_keywords.
+
+(* token text modulo white space (how types are compared) *)
+Definition is_ws (c : N) : bool := (c =? 32) || ((9 <=? c) && (c <=? 13)).
+Definition strip_ws (l : list N) : list N := filter (fun c => negb (is_ws c)) l.
+
+(* ------------------------------------------------------------------------------------------
+   lib.rs *)
+(* trait Method *)
 Record method := mkMethod {
-  m_name : list N;            (* Method::name(): the Rust fn name ("say_hello", "r#type") *)
-  m_ident : list N;           (* Method::identifier(): the proto / route name ("SayHello") *)
+  m_name : list N;              (* name(): the Rust fn name ("say_hello", "r#type") *)
+  m_ident : list N;             (* identifier(): the proto / route name ("SayHello") *)
+  m_codec_ok : bool;            (* syn::parse_str::<syn::Path>(codec_path()) succeeds *)
   m_client_streaming : bool;
   m_server_streaming : bool;
-  m_input : list N;           (* request_response_name(): request type tokens *)
-  m_output : list N           (* .. response type tokens *)
+  (* request_response_name(proto_path, compile_well_known_types); None = it panics *)
+  m_types : list N -> bool -> option (list N * list N)
 }.
-(* tonic_build::Service *)
+(* trait Service *)
 Record svc := mkService {
-  s_name : list N;            (* Service::name(): Rust type name stem *)
-  s_package : list N;         (* Service::package() *)
-  s_ident : list N;           (* Service::identifier(): proto name *)
+  s_name : list N;              (* name(): Rust type name stem *)
+  s_package : list N;           (* package() *)
+  s_ident : list N;             (* identifier(): proto name *)
   s_methods : list method
-}.
-(* CodeGenBuilder / Builder options that are in scope of the property *)
-Record opts := mkOpts {
-  o_emit_package : bool;
-  o_use_arc_self : bool;
-  o_default_stubs : bool;
-  o_build_client : bool;
-  o_build_server : bool
 }.
 
 (* fn format_service_name(service, emit_package) *)
@@ -44,84 +115,555 @@ Definition format_service_name (s : svc) (emit_package : bool) : list N :=
 Definition format_method_path (s : svc) (m : method) (emit_package : bool) : list N :=
   slash :: format_service_name s emit_package ++ slash :: m_ident m.
 
+(* fn naive_snake_case (char::is_uppercase / to_ascii_lowercase on ASCII) *)
+Fixpoint naive_snake_case (name : list N) : list N :=
+  match name with
+  | [] => []
+  | x :: rest =>
+      to_lower x ::
+      (match rest with
+       | y :: _ => if is_upper y then [underscore] else []
+       | [] => []
+       end) ++ naive_snake_case rest
+  end.
+
 Inductive shape := Unary | ServerStreaming | ClientStreaming | Streaming.
 Definition shape_code (k : shape) : N :=
   match k with Unary => 0 | ServerStreaming => 1 | ClientStreaming => 2 | Streaming => 3 end.
-
-(* client.rs generate_methods: match (method.client_streaming(), method.server_streaming()) *)
-Definition client_shape (m : method) : shape :=
-  match m_client_streaming m, m_server_streaming m with
-  | false, false => Unary               (* generate_unary            -> self.inner.unary *)
-  | false, true => ServerStreaming      (* generate_server_streaming -> self.inner.server_streaming *)
-  | true, false => ClientStreaming      (* generate_client_streaming -> self.inner.client_streaming *)
-  | true, true => Streaming             (* generate_streaming        -> self.inner.streaming *)
-  end.
-(* server.rs generate_methods: the same match, written a second time in the source *)
-Definition server_shape (m : method) : shape :=
-  match m_client_streaming m, m_server_streaming m with
-  | false, false => Unary               (* UnaryService,           grpc.unary *)
-  | false, true => ServerStreaming      (* ServerStreamingService, grpc.server_streaming *)
-  | true, false => ClientStreaming      (* ClientStreamingService, grpc.client_streaming *)
-  | true, true => Streaming             (* StreamingService,       grpc.streaming *)
+(* what a descriptor asks for *)
+Definition shape_of (client_streaming server_streaming : bool) : shape :=
+  match client_streaming, server_streaming with
+  | false, false => Unary
+  | false, true => ServerStreaming
+  | true, false => ClientStreaming
+  | true, true => Streaming
   end.
 
-(* one generated client method *)
+(* ------------------------------------------------------------------------------------------
+   client.rs *)
+(* one generated `pub async fn` *)
 Record client_fn := mkClientFn {
-  c_fn : list N;                      (* pub async fn <name> *)
-  c_path : list N;                    (* PathAndQuery::from_static(<path>) *)
-  c_shape : shape;                    (* self.inner.<shape>(req, path, codec) *)
-  c_grpc_method : list N * list N;    (* GrpcMethod::new(<service>, <method>) *)
+  c_fn : list N;                      (* pub async fn <ident> *)
+  c_req_streaming : bool;             (* request: impl IntoStreamingRequest<Message = Req> / impl IntoRequest<Req> *)
   c_input : list N;
-  c_output : list N
+  c_resp_streaming : bool;            (* -> Result<Response<Streaming<Resp>>, Status> / Response<Resp> *)
+  c_output : list N;
+  c_path : list N;                    (* PathAndQuery::from_static(<path>) *)
+  c_grpc_method : list N * list N;    (* GrpcMethod::new(<service_name>, <method_name>) *)
+  c_call : shape                      (* self.inner.<shape>(req, path, codec) *)
 }.
-Definition gen_client_fn (o : opts) (s : svc) (m : method) : client_fn :=
-  mkClientFn (m_name m) (format_method_path s m (o_emit_package o)) (client_shape m)
-             (format_service_name s (o_emit_package o), m_ident m) (m_input m) (m_output m).
-Definition gen_client (o : opts) (s : svc) : list client_fn := map (gen_client_fn o s) (s_methods s).
 
-(* one generated server match arm *)
+Definition client_generate_unary (s : svc) (m : method) (emit_package : bool)
+    (proto_path : list N) (cwkt : bool) : option client_fn :=
+  _codec_name <- (if m_codec_ok m then Some tt else None) ;;
+  ident <- mk_ident (m_name m) ;;
+  rr <- m_types m proto_path cwkt ;;
+  let service_name := format_service_name s emit_package in
+  let path := format_method_path s m emit_package in
+  let method_name := m_ident m in
+  Some (mkClientFn ident false (fst rr) false (snd rr) path (service_name, method_name) Unary).
+
+Definition client_generate_server_streaming (s : svc) (m : method) (emit_package : bool)
+    (proto_path : list N) (cwkt : bool) : option client_fn :=
+  _codec_name <- (if m_codec_ok m then Some tt else None) ;;
+  ident <- mk_ident (m_name m) ;;
+  rr <- m_types m proto_path cwkt ;;
+  let service_name := format_service_name s emit_package in
+  let path := format_method_path s m emit_package in
+  let method_name := m_ident m in
+  Some (mkClientFn ident false (fst rr) true (snd rr) path (service_name, method_name) ServerStreaming).
+
+Definition client_generate_client_streaming (s : svc) (m : method) (emit_package : bool)
+    (proto_path : list N) (cwkt : bool) : option client_fn :=
+  _codec_name <- (if m_codec_ok m then Some tt else None) ;;
+  ident <- mk_ident (m_name m) ;;
+  rr <- m_types m proto_path cwkt ;;
+  let service_name := format_service_name s emit_package in
+  let path := format_method_path s m emit_package in
+  let method_name := m_ident m in
+  Some (mkClientFn ident true (fst rr) false (snd rr) path (service_name, method_name) ClientStreaming).
+
+Definition client_generate_streaming (s : svc) (m : method) (emit_package : bool)
+    (proto_path : list N) (cwkt : bool) : option client_fn :=
+  _codec_name <- (if m_codec_ok m then Some tt else None) ;;
+  ident <- mk_ident (m_name m) ;;
+  rr <- m_types m proto_path cwkt ;;
+  let service_name := format_service_name s emit_package in
+  let path := format_method_path s m emit_package in
+  let method_name := m_ident m in
+  Some (mkClientFn ident true (fst rr) true (snd rr) path (service_name, method_name) Streaming).
+
+(* fn generate_methods: match (method.client_streaming(), method.server_streaming()) *)
+Definition client_generate_method (s : svc) (emit_package : bool) (proto_path : list N) (cwkt : bool)
+    (m : method) : option client_fn :=
+  match m_client_streaming m, m_server_streaming m with
+  | false, false => client_generate_unary s m emit_package proto_path cwkt
+  | false, true => client_generate_server_streaming s m emit_package proto_path cwkt
+  | true, false => client_generate_client_streaming s m emit_package proto_path cwkt
+  | true, true => client_generate_streaming s m emit_package proto_path cwkt
+  end.
+Definition client_generate_methods (s : svc) (emit_package : bool) (proto_path : list N) (cwkt : bool)
+    : option (list client_fn) :=
+  mapM (client_generate_method s emit_package proto_path cwkt) (s_methods s).
+
+Record client_mod := mkClientMod {
+  cm_mod : list N;                    (* pub mod <snake>_client *)
+  cm_struct : list N;                 (* pub struct <Name>Client<T> *)
+  cm_fns : list client_fn
+}.
+(* client::generate_internal (build_transport / attributes / disable_comments carry no path, shape,
+   type or name and are left out) *)
+Definition client_generate_internal (s : svc) (emit_package : bool) (proto_path : list N) (cwkt : bool)
+    : option client_mod :=
+  service_ident <- mk_ident (s_name s ++ str "Client") ;;
+  client_mod <- mk_ident (naive_snake_case (s_name s) ++ str "_client") ;;
+  methods <- client_generate_methods s emit_package proto_path cwkt ;;
+  Some (mkClientMod client_mod service_ident methods).
+
+(* ------------------------------------------------------------------------------------------
+   server.rs *)
+(* the type inside tonic::Response<..> of a handler / the ResponseStream of an arm *)
+Inductive resp_ty :=
+| RPlain (t : list N)                 (* Resp *)
+| RAssoc (stream : list N)            (* Self::<X>Stream  /  T::<X>Stream *)
+| RBox (t : list N).                  (* BoxStream<Resp> *)
+
+(* one method of the generated trait *)
+Record trait_fn := mkTraitFn {
+  t_assoc : option (list N * list N); (* `type <X>Stream: Stream<Item = Result<Resp, Status>>` before the fn *)
+  t_fn : list N;                      (* async fn <name> *)
+  t_arc_self : bool;                  (* self: std::sync::Arc<Self>  /  &self *)
+  t_req_streaming : bool;             (* request: Request<Streaming<Req>> / Request<Req> *)
+  t_input : list N;
+  t_resp : resp_ty;                   (* -> Result<Response<..>, Status> *)
+  t_default_body : bool               (* { Err(Status::unimplemented(..)) }  /  ; *)
+}.
+
+(* fn generate_trait_methods: the body of the loop *)
+Definition generate_trait_method (proto_path : list N) (cwkt : bool)
+    (use_arc_self generate_default_stubs : bool) (m : method) : option trait_fn :=
+  name <- mk_ident (m_name m) ;;
+  rr <- m_types m proto_path cwkt ;;
+  let req_message := fst rr in
+  let res_message := snd rr in
+  let self_param := use_arc_self in
+  match m_client_streaming m, m_server_streaming m, generate_default_stubs with
+  | false, false, true =>
+      Some (mkTraitFn None name self_param false req_message (RPlain res_message) true)
+  | false, false, false =>
+      Some (mkTraitFn None name self_param false req_message (RPlain res_message) false)
+  | true, false, true =>
+      Some (mkTraitFn None name self_param true req_message (RPlain res_message) true)
+  | true, false, false =>
+      Some (mkTraitFn None name self_param true req_message (RPlain res_message) false)
+  | false, true, true =>
+      Some (mkTraitFn None name self_param false req_message (RBox res_message) true)
+  | false, true, false =>
+      stream <- mk_ident (m_ident m ++ str "Stream") ;;
+      Some (mkTraitFn (Some (stream, res_message)) name self_param false req_message (RAssoc stream) false)
+  | true, true, true =>
+      Some (mkTraitFn None name self_param true req_message (RBox res_message) true)
+  | true, true, false =>
+      stream <- mk_ident (m_ident m ++ str "Stream") ;;
+      Some (mkTraitFn (Some (stream, res_message)) name self_param true req_message (RAssoc stream) false)
+  end.
+Definition generate_trait_methods (s : svc) (proto_path : list N) (cwkt : bool)
+    (use_arc_self generate_default_stubs : bool) : option (list trait_fn) :=
+  mapM (generate_trait_method proto_path cwkt use_arc_self generate_default_stubs) (s_methods s).
+
+(* one arm of the generated `call`: "<path>" => { struct <X>Svc; impl <Kind>Service<Req> for <X>Svc
+   { type Response; [type ResponseStream;] fn call(&mut self, request) { <T as Trait>::f(inner, request) } }
+   .. grpc.<shape>(method, req) } *)
 Record server_arm := mkArm {
-  a_literal : list N;                 (* "<path>" => { .. } *)
-  a_shape : shape;                    (* impl <Kind>Service .. ; grpc.<shape>(method, req) *)
-  a_fn : list N;                      (* <T as Trait>::<name>(&inner, request) *)
-  a_input : list N;
-  a_output : list N
+  a_literal : list N;
+  a_kind : shape;                     (* impl tonic::server::<Kind>Service<Req> *)
+  a_input : list N;                   (* .. <Req> *)
+  a_output : list N;                  (* type Response = Resp *)
+  a_response_stream : option resp_ty; (* type ResponseStream = T::<X>Stream | BoxStream<Resp> *)
+  a_call_req_streaming : bool;        (* fn call(&mut self, request: Request<Streaming<Req>>) *)
+  a_trait : list N;                   (* <T as <Trait>>::<fn>( *)
+  a_fn : list N;
+  a_inner_by_value : bool;            (* (inner, request)  /  (&inner, request) *)
+  a_grpc_call : shape                 (* grpc.<shape>(method, req) *)
 }.
-Definition gen_arm (o : opts) (s : svc) (m : method) : server_arm :=
-  mkArm (format_method_path s m (o_emit_package o)) (server_shape m) (m_name m) (m_input m) (m_output m).
-Record server := mkServer {
-  sv_service_name : list N;           (* pub const SERVICE_NAME; NamedService::NAME = SERVICE_NAME *)
-  sv_arms : list server_arm           (* in order; then the default arm (UNIMPLEMENTED) *)
+
+Definition server_generate_unary (m : method) (proto_path : list N) (cwkt : bool)
+    (method_ident server_trait : list N) (use_arc_self : bool) (path : list N) : option server_arm :=
+  _codec_name <- (if m_codec_ok m then Some tt else None) ;;
+  _service_ident <- mk_ident (m_ident m ++ str "Svc") ;;
+  rr <- m_types m proto_path cwkt ;;
+  let inner_arg := use_arc_self in
+  Some (mkArm path Unary (fst rr) (snd rr) None false server_trait method_ident inner_arg Unary).
+
+Definition server_generate_server_streaming (m : method) (proto_path : list N) (cwkt : bool)
+    (method_ident server_trait : list N) (use_arc_self generate_default_stubs : bool) (path : list N)
+    : option server_arm :=
+  _codec_name <- (if m_codec_ok m then Some tt else None) ;;
+  _service_ident <- mk_ident (m_ident m ++ str "Svc") ;;
+  rr <- m_types m proto_path cwkt ;;
+  response_stream <-
+    (if negb generate_default_stubs
+     then stream <- mk_ident (m_ident m ++ str "Stream") ;; Some (RAssoc stream)
+     else Some (RBox (snd rr))) ;;
+  let inner_arg := use_arc_self in
+  Some (mkArm path ServerStreaming (fst rr) (snd rr) (Some response_stream) false
+              server_trait method_ident inner_arg ServerStreaming).
+
+Definition server_generate_client_streaming (m : method) (proto_path : list N) (cwkt : bool)
+    (method_ident server_trait : list N) (use_arc_self : bool) (path : list N) : option server_arm :=
+  _service_ident <- mk_ident (m_ident m ++ str "Svc") ;;
+  rr <- m_types m proto_path cwkt ;;
+  _codec_name <- (if m_codec_ok m then Some tt else None) ;;
+  let inner_arg := use_arc_self in
+  Some (mkArm path ClientStreaming (fst rr) (snd rr) None true server_trait method_ident inner_arg
+              ClientStreaming).
+
+Definition server_generate_streaming (m : method) (proto_path : list N) (cwkt : bool)
+    (method_ident server_trait : list N) (use_arc_self generate_default_stubs : bool) (path : list N)
+    : option server_arm :=
+  _codec_name <- (if m_codec_ok m then Some tt else None) ;;
+  _service_ident <- mk_ident (m_ident m ++ str "Svc") ;;
+  rr <- m_types m proto_path cwkt ;;
+  response_stream <-
+    (if negb generate_default_stubs
+     then stream <- mk_ident (m_ident m ++ str "Stream") ;; Some (RAssoc stream)
+     else Some (RBox (snd rr))) ;;
+  let inner_arg := use_arc_self in
+  Some (mkArm path Streaming (fst rr) (snd rr) (Some response_stream) true
+              server_trait method_ident inner_arg Streaming).
+
+(* fn generate_methods: the body of the loop *)
+Definition server_generate_method (s : svc) (emit_package : bool) (proto_path : list N) (cwkt : bool)
+    (use_arc_self generate_default_stubs : bool) (m : method) : option server_arm :=
+  let path := format_method_path s m emit_package in
+  ident <- mk_ident (m_name m) ;;
+  server_trait <- mk_ident (s_name s) ;;
+  match m_client_streaming m, m_server_streaming m with
+  | false, false => server_generate_unary m proto_path cwkt ident server_trait use_arc_self path
+  | false, true => server_generate_server_streaming m proto_path cwkt ident server_trait use_arc_self
+                                                    generate_default_stubs path
+  | true, false => server_generate_client_streaming m proto_path cwkt ident server_trait use_arc_self path
+  | true, true => server_generate_streaming m proto_path cwkt ident server_trait use_arc_self
+                                            generate_default_stubs path
+  end.
+Definition server_generate_methods (s : svc) (emit_package : bool) (proto_path : list N) (cwkt : bool)
+    (use_arc_self generate_default_stubs : bool) : option (list server_arm) :=
+  mapM (server_generate_method s emit_package proto_path cwkt use_arc_self generate_default_stubs)
+       (s_methods s).
+
+Record server_mod := mkServerMod {
+  sm_mod : list N;                    (* pub mod <snake>_server *)
+  sm_trait : list N;                  (* pub trait <Name> *)
+  sm_struct : list N;                 (* pub struct <Name>Server<T> *)
+  sm_trait_fns : list trait_fn;
+  sm_arms : list server_arm;          (* in order; then the default arm `_ => UNIMPLEMENTED` *)
+  sm_service_name : list N;           (* pub const SERVICE_NAME: &str = <lit> *)
+  sm_named : list N                   (* NamedService::NAME, as a value (generate_named: = SERVICE_NAME) *)
 }.
-Definition gen_server (o : opts) (s : svc) : server :=
-  mkServer (format_service_name s (o_emit_package o)) (map (gen_arm o s) (s_methods s)).
+(* server::generate_internal *)
+Definition server_generate_internal (s : svc) (emit_package : bool) (proto_path : list N) (cwkt : bool)
+    (use_arc_self generate_default_stubs : bool) : option server_mod :=
+  methods <- server_generate_methods s emit_package proto_path cwkt use_arc_self generate_default_stubs ;;
+  server_service <- mk_ident (s_name s ++ str "Server") ;;
+  server_trait <- mk_ident (s_name s) ;;
+  server_mod <- mk_ident (naive_snake_case (s_name s) ++ str "_server") ;;
+  generated_trait <- generate_trait_methods s proto_path cwkt use_arc_self generate_default_stubs ;;
+  let service_name := format_service_name s emit_package in
+  (* generate_named(&server_service, &service_name) *)
+  let const_SERVICE_NAME := service_name in
+  let named_NAME := const_SERVICE_NAME in
+  Some (mkServerMod server_mod server_trait server_service generated_trait methods
+                    const_SERVICE_NAME named_NAME).
 
-(* the generated server as C10's router sees it: NAME and the arm literals' method parts *)
-Definition registered (o : opts) (s : svc) : service :=
-  mkSvc (sv_service_name (gen_server o s)) (map m_ident (s_methods s)).
+(* ------------------------------------------------------------------------------------------
+   code_gen.rs *)
+Record codegen_builder := mkCGB {
+  cg_emit_package : bool;
+  cg_compile_well_known_types : bool;
+  cg_use_arc_self : bool;
+  cg_generate_default_stubs : bool
+}.
+(* CodeGenBuilder::new() = Default *)
+Definition cgb_new : codegen_builder := mkCGB true false false false.
+Definition cgb_emit_package (v : bool) (b : codegen_builder) :=
+  mkCGB v (cg_compile_well_known_types b) (cg_use_arc_self b) (cg_generate_default_stubs b).
+Definition cgb_compile_well_known_types (v : bool) (b : codegen_builder) :=
+  mkCGB (cg_emit_package b) v (cg_use_arc_self b) (cg_generate_default_stubs b).
+Definition cgb_use_arc_self (v : bool) (b : codegen_builder) :=
+  mkCGB (cg_emit_package b) (cg_compile_well_known_types b) v (cg_generate_default_stubs b).
+Definition cgb_generate_default_stubs (v : bool) (b : codegen_builder) :=
+  mkCGB (cg_emit_package b) (cg_compile_well_known_types b) (cg_use_arc_self b) v.
+Definition generate_client (b : codegen_builder) (s : svc) (proto_path : list N) : option client_mod :=
+  client_generate_internal s (cg_emit_package b) proto_path (cg_compile_well_known_types b).
+Definition generate_server (b : codegen_builder) (s : svc) (proto_path : list N) : option server_mod :=
+  server_generate_internal s (cg_emit_package b) proto_path (cg_compile_well_known_types b)
+                           (cg_use_arc_self b) (cg_generate_default_stubs b).
 
-(* ---- observables ---- *)
-Definition client_fn_obs (full : bool) (c : client_fn) : tr :=
-  Nd ([Bs (c_path c); Nn (shape_code (c_shape c)); Bs (fst (c_grpc_method c)); Bs (snd (c_grpc_method c))]
-      ++ if full then [Bs (c_fn c); Bs (c_input c); Bs (c_output c)] else []).
-Definition arm_obs (full : bool) (a : server_arm) : tr :=
-  Nd ([Bs (a_literal a); Nn (shape_code (a_shape a))]
-      ++ if full then [Bs (a_fn a); Bs (a_input a); Bs (a_output a)] else []).
-Definition server_obs (full : bool) (sv : server) : tr :=
-  Nd [Bs (sv_service_name sv); olist (arm_obs full) (sv_arms sv)].
+(* what one ServiceGenerator::generate call adds: (clients, servers) *)
+Record gen_out := mkOut { g_client : option client_mod; g_server : option server_mod }.
 
-(* what the two generators emit for one service; [full]: also fn names and message types
-   (known for tonic_build::manual descriptors; prost-build derives them itself) *)
-Definition obs_gen (full : bool) (o : opts) (s : svc) : tr :=
-  Nd [ if o_build_client o then Nd [olist (client_fn_obs full) (gen_client o s)] else Nd [];
-       if o_build_server o then Nd [server_obs full (gen_server o s)] else Nd [] ].
+(* `finalize`: syn::parse2(..).expect("not a valid tokenstream") - a defined name that syn does not
+   accept as an identifier (trait name, fn names) makes the emitted text unparsable *)
+Definition client_parses (c : client_mod) : bool :=
+  forallb (fun f => negb (is_syn_keyword (c_fn f))) (cm_fns c).
+Definition server_parses (sv : server_mod) : bool :=
+  negb (is_syn_keyword (sm_trait sv)) &&
+  forallb (fun t => negb (is_syn_keyword (t_fn t))) (sm_trait_fns sv).
+Definition out_parses (g : gen_out) : bool :=
+  match g_client g with Some c => client_parses c | None => true end &&
+  match g_server g with Some sv => server_parses sv | None => true end.
+Definition finalize (g : gen_out) : option gen_out := if out_parses g then Some g else None.
 
-(* a generated client method called through Routes on which the generated server is registered
-   (with other services): which handler runs, and with which streaming shape on either side *)
-Definition obs_e2e (o : opts) (regs : list svc) (s : svc) (m : method) : tr :=
-  let c := gen_client_fn o s m in
-  Nd [ obs_serve (map (registered o) regs) (c_path c);
-       Nn (shape_code (c_shape c)); Nn (shape_code (server_shape m)) ].
+(* ------------------------------------------------------------------------------------------
+   manual.rs *)
+Record manual_method := mkMM {
+  mm_name : list N;
+  mm_route_name : list N;
+  mm_input_type : list N;
+  mm_output_type : list N;
+  mm_client_streaming : bool;
+  mm_server_streaming : bool;
+  mm_input_is_path : bool;            (* syn::parse_str::<syn::Path>(input_type) succeeds (observed) *)
+  mm_output_is_path : bool;
+  mm_codec_is_path : bool
+}.
+Record manual_service := mkMS {
+  ms_name : list N;
+  ms_package : list N;
+  ms_methods : list manual_method
+}.
+(* impl crate::Method for manual::Method *)
+Definition manual_method_view (m : manual_method) : method :=
+  mkMethod (mm_name m) (mm_route_name m) (mm_codec_is_path m)
+           (mm_client_streaming m) (mm_server_streaming m)
+           (fun _proto_path _cwkt =>
+              request <- (if mm_input_is_path m then Some (strip_ws (mm_input_type m)) else None) ;;
+              response <- (if mm_output_is_path m then Some (strip_ws (mm_output_type m)) else None) ;;
+              Some (request, response)).
+(* impl crate::Service for manual::Service: identifier() is the name *)
+Definition manual_service_view (s : manual_service) : svc :=
+  mkService (ms_name s) (ms_package s) (ms_name s) (map manual_method_view (ms_methods s)).
+
+Record manual_builder := mkMB { mb_build_client : bool; mb_build_server : bool }.
+(* manual::ServiceGenerator::generate *)
+Definition manual_generate (b : manual_builder) (s : manual_service) : option gen_out :=
+  server <-
+    (if mb_build_server b
+     then sv <- generate_server (cgb_compile_well_known_types false (cgb_emit_package true cgb_new))
+                                (manual_service_view s) [] ;; Some (Some sv)
+     else Some None) ;;
+  client <-
+    (if mb_build_client b
+     then c <- generate_client (cgb_compile_well_known_types false (cgb_emit_package true cgb_new))
+                               (manual_service_view s) [] ;; Some (Some c)
+     else Some None) ;;
+  Some (mkOut client server).
+(* manual::Builder::compile, one service: generate, finalize *)
+Definition manual_compile (b : manual_builder) (s : manual_service) : option gen_out :=
+  g <- manual_generate b s ;; finalize g.
+
+(* ------------------------------------------------------------------------------------------
+   prost.rs *)
+(* prost_build::Method / Service as handed to ServiceGenerator::generate *)
+Record prost_method := mkPM {
+  pm_name : list N;
+  pm_proto_name : list N;
+  pm_input_type : list N;
+  pm_output_type : list N;
+  pm_input_proto_type : list N;
+  pm_output_proto_type : list N;
+  pm_client_streaming : bool;
+  pm_server_streaming : bool
+}.
+Record prost_service := mkPS {
+  ps_name : list N;
+  ps_proto_name : list N;
+  ps_package : list N;
+  ps_methods : list prost_method
+}.
+Definition is_google_type (ty : list N) : bool := starts_with (str ".google.protobuf") ty.
+Definition non_path_type_allowlist : list (list N) := [str "()"].
+(* the closure convert_type of TonicBuildMethod::request_response_name; its three parses are
+   assumed to succeed (prost-build's type names and proto_path are paths) *)
+Definition convert_type (proto_path : list N) (cwkt : bool) (proto_type rust_type : list N) : list N :=
+  if (is_google_type proto_type && negb cwkt)
+     || starts_with (str "::") rust_type
+     || existsb (bytes_eqb rust_type) non_path_type_allowlist
+  then strip_ws rust_type
+  else if starts_with (str "crate::") rust_type
+  then strip_ws rust_type
+  else strip_ws (proto_path ++ str "::" ++ rust_type).
+(* impl crate::Method for TonicBuildMethod (codec_path: the default, a path) *)
+Definition prost_method_view (m : prost_method) : method :=
+  mkMethod (pm_name m) (pm_proto_name m) true (pm_client_streaming m) (pm_server_streaming m)
+           (fun proto_path cwkt =>
+              Some (convert_type proto_path cwkt (pm_input_proto_type m) (pm_input_type m),
+                    convert_type proto_path cwkt (pm_output_proto_type m) (pm_output_type m))).
+(* impl crate::Service for TonicBuildService *)
+Definition prost_service_view (s : prost_service) : svc :=
+  mkService (ps_name s) (ps_package s) (ps_proto_name s) (map prost_method_view (ps_methods s)).
+
+Record prost_builder := mkPB {
+  pb_build_client : bool;
+  pb_build_server : bool;
+  pb_proto_path : list N;
+  pb_emit_package : bool;
+  pb_compile_well_known_types : bool;
+  pb_use_arc_self : bool;
+  pb_generate_default_stubs : bool
+}.
+(* fn configure() *)
+Definition configure : prost_builder := mkPB true true (str "super") true false false false.
+(* prost::ServiceGenerator::generate *)
+Definition prost_generate (b : prost_builder) (s : prost_service) : option gen_out :=
+  server <-
+    (if pb_build_server b
+     then sv <- generate_server
+                  (cgb_generate_default_stubs (pb_generate_default_stubs b)
+                     (cgb_use_arc_self (pb_use_arc_self b)
+                        (cgb_compile_well_known_types (pb_compile_well_known_types b)
+                           (cgb_emit_package (pb_emit_package b) cgb_new))))
+                  (prost_service_view s) (pb_proto_path b) ;; Some (Some sv)
+     else Some None) ;;
+  client <-
+    (if pb_build_client b
+     then c <- generate_client
+                 (cgb_compile_well_known_types (pb_compile_well_known_types b)
+                    (cgb_emit_package (pb_emit_package b) cgb_new))
+                 (prost_service_view s) (pb_proto_path b) ;; Some (Some c)
+     else Some None) ;;
+  Some (mkOut client server).
+(* one service through generate + finalize (compile_fds / compile_protos) *)
+Definition prost_compile (b : prost_builder) (s : prost_service) : option gen_out :=
+  g <- prost_generate b s ;; finalize g.
+
+(* CodeGenBuilder used directly (token streams, no finalize) *)
+Definition codegen_direct (b : codegen_builder) (build_client build_server : bool) (s : svc)
+    (proto_path : list N) : option gen_out :=
+  client <- (if build_client then c <- generate_client b s proto_path ;; Some (Some c) else Some None) ;;
+  server <- (if build_server then sv <- generate_server b s proto_path ;; Some (Some sv) else Some None) ;;
+  Some (mkOut client server).
+
+(* ------------------------------------------------------------------------------------------
+   the generated server as a request meets it *)
+(* generated `call`: match req.uri().path() { <literal> => arm, .., _ => UNIMPLEMENTED } *)
+Definition call_arm (sv : server_mod) (path : list N) : option server_arm :=
+  find (fun a => bytes_eqb (a_literal a) path) (sm_arms sv).
+(* what C10's router sees of it: NamedService::NAME and, per arm, the part of the literal after
+   "/NAME/" (the whole literal if it does not start that way) *)
+Definition arm_method (name : list N) (a : server_arm) : list N :=
+  match strip_prefix (slash :: name ++ [slash]) (a_literal a) with
+  | Some rest => rest
+  | None => a_literal a
+  end.
+Definition registered (sv : server_mod) : service :=
+  mkSvc (sm_named sv) (map (arm_method (sm_named sv)) (sm_arms sv)).
+
+(* ------------------------------------------------------------------------------------------
+   observables *)
+Definition client_fn_obs (c : client_fn) : tr :=
+  Nd [Bs (c_fn c); obool (c_req_streaming c); Bs (c_input c); obool (c_resp_streaming c); Bs (c_output c);
+      Bs (c_path c); Bs (fst (c_grpc_method c)); Bs (snd (c_grpc_method c)); Nn (shape_code (c_call c))].
+Definition client_mod_obs (c : client_mod) : tr :=
+  Nd [Bs (cm_mod c); Bs (cm_struct c); olist client_fn_obs (cm_fns c)].
+Definition resp_obs (r : resp_ty) : tr :=
+  match r with
+  | RPlain t => Nd [Nn 0; Bs t]
+  | RAssoc x => Nd [Nn 1; Bs x]
+  | RBox t => Nd [Nn 2; Bs t]
+  end.
+Definition trait_fn_obs (t : trait_fn) : tr :=
+  Nd [oopt (fun p => Nd [Bs (fst p); Bs (snd p)]) (t_assoc t); Bs (t_fn t); obool (t_arc_self t);
+      obool (t_req_streaming t); Bs (t_input t); resp_obs (t_resp t); obool (t_default_body t)].
+Definition arm_obs (a : server_arm) : tr :=
+  Nd [Bs (a_literal a); Nn (shape_code (a_kind a)); Bs (a_input a); Bs (a_output a);
+      oopt resp_obs (a_response_stream a); obool (a_call_req_streaming a); Bs (a_trait a); Bs (a_fn a);
+      obool (a_inner_by_value a); Nn (shape_code (a_grpc_call a))].
+Definition server_mod_obs (sv : server_mod) : tr :=
+  Nd [Bs (sm_mod sv); Bs (sm_trait sv); Bs (sm_struct sv); olist trait_fn_obs (sm_trait_fns sv);
+      olist arm_obs (sm_arms sv); Bs (sm_service_name sv); Bs (sm_named sv)].
+Definition gen_out_obs (g : option gen_out) : tr :=
+  match g with
+  | None => Nd [Nn 99]                                (* the generator panicked *)
+  | Some g => Nd [oopt client_mod_obs (g_client g); oopt server_mod_obs (g_server g)]
+  end.
+
+(* CodeGenBuilder::generate_client / generate_server on a tonic_build::manual descriptor; the
+   token streams are parsed by the harness: 98 = they do not parse *)
+Definition obs_codegen (b : codegen_builder) (build_client build_server : bool) (s : manual_service) : tr :=
+  match codegen_direct b build_client build_server (manual_service_view s) [] with
+  | None => Nd [Nn 99]
+  | Some g => if out_parses g then gen_out_obs (Some g) else Nd [Nn 98]
+  end.
+(* manual::Builder::compile *)
+Definition obs_manual (b : manual_builder) (s : manual_service) : tr :=
+  gen_out_obs (manual_compile b s).
+(* tonic_build::configure()..compile_fds / compile_protos, one service of the file *)
+Definition obs_prost (b : prost_builder) (s : prost_service) : tr :=
+  gen_out_obs (prost_compile b s).
+
+(* a generated client method (the j-th of [s]) called through Routes on which the generated
+   servers of [regs] are registered: which handler runs, and with which streaming shape on either
+   side (manual::Builder, as the fixture is built) *)
+Definition manual_server (s : manual_service) : option server_mod :=
+  g <- manual_compile (mkMB true true) s ;; g_server g.
+Definition manual_client (s : manual_service) : option client_mod :=
+  g <- manual_compile (mkMB true true) s ;; g_client g.
+Definition obs_e2e (regs : list manual_service) (s : manual_service) (j : N) : tr :=
+  match mapM manual_server regs, manual_client s, manual_server s with
+  | Some svs, Some c, Some sv =>
+      match nth_error (cm_fns c) (N.to_nat j) with
+      | Some f =>
+          Nd [ obs_serve (map registered svs) (c_path f);
+               Nn (shape_code (c_call f));
+               match call_arm sv (c_path f) with
+               | Some a => Nn (shape_code (a_grpc_call a))
+               | None => Nn 9
+               end ]
+      | None => Nd [Nn 96]
+      end
+  | _, _, _ => Nd [Nn 99]
+  end.
+
+(* the same for servers generated through the prost path under any Builder options, registered
+   next to other generated servers: who answers the j-th client method of [s] - the user's handler
+   (0), or the default body `Err(Status::unimplemented(..))` that generate_default_stubs put into the
+   trait when the implementation does not override the method (3) *)
+Inductive reg := RegProst (b : prost_builder) (s : prost_service) | RegManual (s : manual_service).
+Definition reg_server (r : reg) : option server_mod :=
+  match r with
+  | RegProst b s => g <- prost_compile b s ;; g_server g
+  | RegManual s => manual_server s
+  end.
+Definition obs_e2e_prost (regs : list reg) (b : prost_builder) (s : prost_service) (j : N)
+    (overridden : bool) : tr :=
+  match mapM reg_server regs, (g <- prost_compile b s ;; g_client g),
+        (g <- prost_compile b s ;; g_server g) with
+  | Some svs, Some c, Some sv =>
+      match nth_error (cm_fns c) (N.to_nat j), build (map registered svs) with
+      | Some f, Some r =>
+          match serve r (c_path f) with
+          | Handler name m =>
+              match call_arm sv (c_path f) with
+              | Some a =>
+                  let stub :=
+                    match find (fun t => bytes_eqb (t_fn t) (a_fn a)) (sm_trait_fns sv) with
+                    | Some t => t_default_body t && negb overridden
+                    | None => false
+                    end in
+                  if stub
+                  then Nd [Nd [Nn 3]; Nn (shape_code (c_call f)); Nn 9; Nn 12]
+                  else Nd [Nd [Nn 0; Bs name; Bs m]; Nn (shape_code (c_call f));
+                           Nn (shape_code (a_grpc_call a)); Nn 0]
+              | None => Nd [Nn 97]
+              end
+          | UnimplService name => Nd [Nd [Nn 1; Bs name]; Nn (shape_code (c_call f)); Nn 9; Nn 12]
+          | UnimplFallback => Nd [Nd [Nn 2]; Nn (shape_code (c_call f)); Nn 9; Nn 12]
+          end
+      | _, _ => Nd [Nn 96]
+      end
+  | _, _, _ => Nd [Nn 99]
+  end.
 
 (* committed file = generator output: the comparison either holds or not *)
 Definition obs_regen : tr := Nd [Nn 1].
